@@ -22,6 +22,14 @@ Plan gen_c08(uint64_t seed, int tier)
   fix_timescale(p);
   int nloggers = static_cast<int>(p.cfg["nloggers"]);
   int nlong = static_cast<int>(r.range(1, 3));
+  // one private logger per long thread (index nloggers + t): the effect of control requests issued while the queue is full
+  // is observed there — a backtrace that is initialised, filled, flushed; a blocking removal
+  for (int t = 0; t < nlong; ++t)
+  {
+    p.cfg["logger" + std::to_string(nloggers + t) + "_sinks"] = p.cfg["logger0_sinks"];
+    p.cfg["logger" + std::to_string(nloggers + t) + "_clock"] = p.cfg["logger0_clock"];
+  }
+  p.cfg["nloggers"] = nloggers + nlong;
   int nshort = static_cast<int>(r.range(0, 3));
   int nthreads = nlong + nshort;
   p.threads.resize(static_cast<size_t>(nthreads));
@@ -48,8 +56,38 @@ Plan gen_c08(uint64_t seed, int tier)
     auto& ops = p.threads[static_cast<size_t>(t)];
     int lg = static_cast<int>(r.below(static_cast<uint32_t>(nloggers)));
     int rounds = t < nlong ? static_cast<int>(r.range(1, 4)) : 1;
+    int effect_round = (t < nlong && r.chance(1, 2)) ? static_cast<int>(r.below(static_cast<uint32_t>(rounds))) : -1;
     for (int k = 0; k < rounds; ++k)
     {
+      if (k == effect_round)
+      {
+        // control requests whose effect is observable, each issued right after a burst (queue probably full, backend stalled)
+        int const plg = nloggers + t;
+        int64_t cap = r.range(1, 4);
+        ops.push_back(Op{OP_STALL, -1, 0, r.range(1, 20), r.pick<int64_t>({5000, 20000, 100000})});
+        burst(ops, lg);
+        ops.push_back(Op{OP_BT_INIT, plg, cap, 10});
+        if (r.chance(1, 2))
+        {
+          ops.push_back(Op{OP_SLEEP, r.pick<int64_t>({5000, 50000, 200000})});
+        }
+        int nbt = static_cast<int>(r.pick<int64_t>({0, 1, cap, cap + 1, 2 * cap + 1}));
+        for (int i = 0; i < nbt; ++i)
+        {
+          ops.push_back(Op{OP_BT_LOG, plg, 0, 0, static_cast<int64_t>(r.next() >> 8), static_cast<int64_t>(r.below(24)), 0});
+        }
+        if (r.chance(1, 2))
+        {
+          burst(ops, lg);
+        }
+        ops.push_back(Op{OP_BT_FLUSH, plg});
+        ops.push_back(Op{OP_FLUSH, plg, 100});
+        if (r.chance(1, 2))
+        {
+          burst(ops, lg);
+          ops.push_back(Op{OP_REMOVE_BLOCKING, plg});
+        }
+      }
       if (r.chance(1, 3))
       {
         // stall the backend so that the burst really fills the queue
@@ -133,16 +171,114 @@ Verdict judge_c08(Plan const& p, History const& h, RunInfoLite const& ri)
     return v;
   }
   // returned true <=> delivered exactly once, intact, in order; returned false <=> never delivered
+  // Backtrace statements exist only on the private loggers (one writer each): after BT_INIT cap, n stored statements, BT_FLUSH
+  // and a completed flush_log exactly the last min(cap, stored) of them must have been written — if the initialisation or the
+  // flush request had been discarded because the queue was full, none would be. Judged only for the generated shape.
+  std::set<int64_t> bt_must;
+  std::set<int> bt_unjudged;
+  uint64_t bt_cycles = 0, removals_after_burst = 0;
+  for (size_t t = 0; t < p.threads.size(); ++t)
+  {
+    int plg = -1;
+    for (auto const& op : p.threads[t])
+    {
+      if (op.k == OP_BT_LOG)
+      {
+        plg = static_cast<int>(op.v[0]);
+      }
+    }
+    if (plg < 0)
+    {
+      continue;
+    }
+    // shape: BT_INIT plg, BT_LOG plg*, BT_FLUSH plg, FLUSH plg (other ops in between are on other loggers)
+    int stage = 0;
+    size_t cap = 0;
+    bool shape_ok = true;
+    for (auto const& op : p.threads[t])
+    {
+      bool on_plg = (op.k == OP_BT_INIT || op.k == OP_BT_LOG || op.k == OP_BT_FLUSH || op.k == OP_FLUSH || op.k == OP_REMOVE_BLOCKING ||
+                     op.k == OP_LOG) &&
+        op.v[0] == plg;
+      if (!on_plg)
+      {
+        continue;
+      }
+      if (op.k == OP_BT_INIT && stage == 0)
+      {
+        cap = static_cast<size_t>(op.v[1]);
+        stage = 1;
+      }
+      else if (op.k == OP_BT_LOG && stage == 1)
+      {
+      }
+      else if (op.k == OP_BT_FLUSH && stage == 1)
+      {
+        stage = 2;
+      }
+      else if (op.k == OP_FLUSH && stage == 2)
+      {
+        stage = 3;
+      }
+      else if (op.k == OP_REMOVE_BLOCKING && stage == 3)
+      {
+        stage = 4;
+        ++removals_after_burst;
+      }
+      else
+      {
+        shape_ok = false;
+      }
+    }
+    if (!shape_ok || stage < 3)
+    {
+      bt_unjudged.insert(plg);
+      continue;
+    }
+    std::vector<int64_t> stored;
+    for (int64_t id : m.issue_order)
+    {
+      Issued const& is = m.issued.at(id);
+      if (is.kind == 1 && is.logger == plg && is.result == 1)
+      {
+        stored.push_back(id);
+      }
+    }
+    size_t n = std::min(cap, stored.size());
+    bt_must.insert(stored.end() - static_cast<long>(n), stored.end());
+    ++bt_cycles;
+  }
   DeliveryRules rules;
-  rules.expect = [&m](Issued const& is, int sink) -> int
+  rules.expect = [&](Issued const& is, int sink) -> int
   {
     if (is.result != 1)
     {
       return 0;
     }
-    return ((m.mask_of_logger_at(is.logger, is.invoke_seq) >> sink) & 1) ? 1 : 0;
+    bool const to_sink = ((m.mask_of_logger_at(is.logger, is.invoke_seq) >> sink) & 1) != 0;
+    if (is.kind == 1)
+    {
+      if (bt_unjudged.count(is.logger))
+      {
+        return -1;
+      }
+      return (to_sink && bt_must.count(is.id)) ? 1 : 0;
+    }
+    return to_sink ? 1 : 0;
   };
+  // two passes: ordinary statements, then the backtrace statements (a replay is written after statements issued later — the
+  // documented exception to ordering — so the per-thread order is checked within each group only)
+  rules.skip = [](Issued const& is) { return is.kind == 1; };
   Verdict d = check_delivery(m, rules);
+  if (d.kind == Verdict::OK)
+  {
+    rules.skip = [](Issued const& is) { return is.kind != 1; };
+    d = check_delivery(m, rules);
+    if (d.kind != Verdict::OK)
+    {
+      d.fields["backtrace_statement"] = "1";
+    }
+  }
   if (d.kind != Verdict::OK)
   {
     if (d.tag == "unexpected_delivery")
@@ -250,6 +386,9 @@ Verdict judge_c08(Plan const& p, History const& h, RunInfoLite const& ri)
     }
   }
   v.probes["control_requests_completed"] = control;
+  v.probes["backtrace_init_fill_flush_cycles_checked"] = bt_cycles;
+  v.probes["backtrace_statements_that_had_to_be_replayed"] = bt_must.size();
+  v.probes["blocking_removals_after_a_burst"] = removals_after_burst;
   return v;
 }
 
@@ -262,7 +401,8 @@ void register_c08(std::vector<Profile>& v)
   p.judge = judge_c08;
   p.rule =
     "one case = one seeded plan (bounded 512 B / 4 KiB and unbounded 512 B->2 KiB dropping queues, bursts sized against the "
-    "capacity incl. never-fitting sizes, backend stalls, control requests while full, threads exiting after a burst) under one "
+    "capacity incl. never-fitting sizes, backend stalls, control requests while full — incl. a backtrace initialised, filled and flushed on a "
+    "private logger and a blocking logger removal, whose effects are checked —, threads exiting after a burst) under one "
     "seeded schedule; distinct = distinct event hash; non-trivial = >=1 dropped and >=1 accepted statement and >=1 preemption";
   p.real_components = {"LoggerImpl::log_statement (return value)", "dropping SPSC queues", "BackendWorker incl. _check_failure_counter",
                        "ThreadContext failure counter", "flush/backtrace control events"};
